@@ -19,6 +19,9 @@ else
 fi
 cd $W
 export SEEDED=$S CARGO_TARGET_DIR=/tmp/vt-$slot
+# The suite is built optimised but with the debug and overflow assertions of the dev profile kept:
+# the same tests and assertions as the baseline command, several times faster to run.
+export CARGO_PROFILE_RELEASE_DEBUG_ASSERTIONS=true CARGO_PROFILE_RELEASE_OVERFLOW_CHECKS=true
 bash $S/demo_cmd.sh > $S/confirm_demo_without.log 2>&1; d0=$?
 git apply $S/patch.diff || { echo "patch does not apply"; exit 2; }
 cargo check --offline -q -j $T > $S/confirm_build.log 2>&1; b1=$?
@@ -26,7 +29,7 @@ cargo check --offline -q -j $T --features verif-hooks >> $S/confirm_build.log 2>
 bash $S/demo_cmd.sh > $S/confirm_demo_with.log 2>&1; d1=$?
 suite="skipped"
 if [ "$2" != "--no-suite" ]; then
-  cargo nextest run --workspace --no-fail-fast --tool-config-file pb:/w/lib/nextest.toml --profile pb --test-threads $T --offline > $S/confirm_suite.log 2>&1
+  cargo nextest run --workspace --cargo-profile release --no-fail-fast --tool-config-file pb:/w/lib/nextest.toml --profile pb --test-threads $T --offline > $S/confirm_suite.log 2>&1
   suite=$(grep -E "^\s+Summary" $S/confirm_suite.log | tail -1 | sed 's/^ *//')
   grep -E "^\s+(FAIL|TIMEOUT|SIGABRT|SIGSEGV|SIGTERM)" $S/confirm_suite.log | sort -u > $S/confirm_suite_failures.log
   gzip -f $S/confirm_suite.log
@@ -36,6 +39,6 @@ python3 - "$id" "$d0" "$d1" "$b1" "$b2" "$suite" "$T" <<'PY'
 import json,sys,subprocess
 id,d0,d1,b1,b2,suite,t=sys.argv[1:8]
 head=subprocess.run(['git','-C','/repo','rev-parse','--short','HEAD'],capture_output=True,text=True).stdout.strip()
-json.dump({"id":id,"demo_without_patch_exit":int(d0),"demo_with_patch_exit":int(d1),"compiles":int(b1)==0,"compiles_with_hooks":int(b2)==0,"suite_summary":suite,"suite_threads":int(t),"repo_head":head},open(f"/verif/seeded/{id}/confirm.json","w"),indent=1)
+json.dump({"id":id,"demo_without_patch_exit":int(d0),"demo_with_patch_exit":int(d1),"compiles":int(b1)==0,"compiles_with_hooks":int(b2)==0,"suite_summary":suite,"suite_threads":int(t),"suite_profile":"release + debug-assertions + overflow-checks","repo_head":head},open(f"/verif/seeded/{id}/confirm.json","w"),indent=1)
 print(open(f"/verif/seeded/{id}/confirm.json").read())
 PY
